@@ -15,7 +15,7 @@ def run(ck):
     cloudcheck.run_family(ck, "cloud-fault", 200 if quick else 5000, CLAUSE + " [object store]",
                           lambda c: c["features"].get("faults", 0) >= 1)
     # local and git: named failpoints between the internal steps, then every handle is reopened
-    for kind, q, t in (("local", 100, 2000), ("git", 24, 300), ("gitremote", 24, 240), ("http", 24, 300)):
+    for kind, q, t in (("local", 100, 2000), ("git", 30, 300), ("gitremote", 40, 300), ("http", 24, 300)):
         synccheck.run_family(ck, "backend", q if quick else t, CLAUSE + " [%s]" % kind,
                              lambda c: c["features"].get("faults", 0) >= 1,
                              extra_args=["--kind", kind, "--faults"],
@@ -28,14 +28,15 @@ def run(ck):
         "object store: schedules of 2-3 clients in which one object-store request fails before taking effect or "
         "takes effect and reports an error (the faulted call returns an error; later calls and the final store are "
         "compared with the model; accepted and served versions are audited); local and git backends: call "
-        "sequences in which one add-version is interrupted at a named failpoint between its internal steps, all "
+        "sequences in which one add-version is interrupted at a named failpoint between its internal steps - the step "
+        "returns an error, or the process stops there (an unwinding panic: none of the backend's error handling runs) -, all "
         "handles are reopened, the interrupted version is classified by whether it is visible, and the remaining "
         "calls must conform to the protocol; HTTP client: one add-version is answered with status 500, without or "
         "with a malformed version id, or with a 409 lacking the expected parent, the handles are reopened and the "
         "remaining calls must conform; distinct = different scripts; non-trivial = a fault was injected",
         "Theorems C11_* cover the object-store commit point; SQLite and git crash behaviour is sampled through "
         "failpoints (error paths) - a process kill between git commands is not exhibited.",
-        trusted_extra=["failpoints model an error return, not a process kill; SQLite and git are substrates"])
+        trusted_extra=["a process stop is modelled by an unwinding panic at the failpoint (no error handling runs; Drop impls do); SQLite and git are substrates"])
 
 
 def known_match(ck):
